@@ -315,6 +315,31 @@ def check(ctx: Ctx) -> None:
                     base_ok = name[0] == "slice" and name[1] == ("sym", "path")
                     if not ok or not base_ok:
                         ob.violation(fls, e.node, "links are not classified as ('linkbase', name, path relative to the tree) / ('link', name, verbatim target)")
+        # "outside the tree" is a statement about path *components*: `..` itself or a first component `..`; a bare
+        # string prefix test with os.pardir also matches entries whose name merely begins with two dots (`..data`)
+        def _subterms(t):
+            if isinstance(t, tuple):
+                yield t
+                for x in t:
+                    yield from _subterms(x)
+        PARDIR = (("sym", "os.pardir"), const(".."), ("sym", "os.path.pardir"))
+        nprefix = 0
+        flagged = set()
+        for (_p, st) in all_paths(evs):
+            for e in st.events:
+                if e.kind == "call" and e.callee == "self._send_link":
+                    cs = [t for (t, _v) in st.cond[:e.ncond]]
+                    subs = [x for t in cs for x in _subterms(t)]
+                    componentwise = any(x in (("sym", "os.sep"), ("sym", "os.path.sep"), ("sym", "os.altsep")) or (x and x[0] in ("idx", "slice")) for x in subs)
+                    for x in subs:
+                        if len(x) == 4 and x[0] == "pcall" and isinstance(x[1], tuple) and x[1][:1] == ("meth",) and x[1][2] == "startswith" and x[2]:
+                            nprefix += 1
+                            if x[2][0] in PARDIR and not componentwise and id(e.node) not in flagged:
+                                flagged.add(id(e.node))
+                                ob.violation(fls, e.node, f"whether a link target lies outside the tree is decided by the string prefix test `{show(x)}`: an entry of the tree whose name "
+                                                          "merely begins with '..' (e.g. `..data`) is taken for a parent reference and its link is not re-rooted onto the target",
+                                             construct="startswith(os.pardir) without separator")
+        ob.site(fls, fls.node, "prefix tests deciding the classification name a whole component (pardir + sep)", prefix_tests=nprefix)
         ob.require(nrel >= 1, "os.path.relpath call not found")
         ob.site(fls, fls.node, "classification", kinds=sorted(classes))
         if classes != {"linkbase", "link"}:
